@@ -27,7 +27,7 @@ pub fn resolve_once_nd(
     }
 }
 
-fn iter_protocol(maxb: usize) {
+pub(crate) fn iter_protocol(maxb: usize) {
     reset_report_model();
     let mut report = diagn::Report::new();
     let opts = asm::AssemblyOptions::new();
@@ -193,3 +193,72 @@ macro_rules! undecided_data {
 undecided_data!(unknown, 1, c02_b_data_unknown);
 undecided_data!(failed, 2, c02_b_data_failed);
 undecided_data!(err, 3, c02_b_data_err);
+
+
+// ---- instruction (argument-less matches; productions through the evaluator stub)
+step! { int;
+    #[kani::unwind(2)]
+    fn c02_b_instr_one_match() {
+        // one match resolving to (v, size s): stored encoding is exactly that; Resolved <=> value unchanged
+        let v: u16 = kani::any();
+        let s: usize = kani::any(); kani::assume(s >= 16 && s <= 24);
+        let prev: u16 = kani::any();
+        let ps: usize = kani::any(); kani::assume(ps <= 24);
+        let (first, last, sk, opt): (bool, bool, bool, bool) = (kani::any(), kani::any(), kani::any(), kani::any());
+        let (decls, mut defs) = instr_defs(1, prev as i64, ps, sk);
+        pre_int(v as i64, Some(s));
+        let o = instr_step(&decls, &mut defs, first, last, opt);
+        assert!(o.ok, "resolvable instruction failed");
+        assert!(o.stored == v as i64 && o.stored_size == Some(s), "stored encoding is not the freshly computed one (value and size)");
+        if !o.flag { assert!(o.resolved == (prev == v), "Resolved differs from 'encoding value unchanged'"); }
+        if o.flag { assert!(sk && first && opt, "resolved flag set although the encoding is not statically known on the first pass"); }
+        if !o.resolved && last { assert!(o.errs > 0, "final pass unresolved without a diagnostic"); }
+        kani::cover!(o.resolved && !o.flag && ps != s, "same value, different size than before");
+        kani::cover!(!o.resolved && last, "changed on the final pass");
+        kani::cover!(o.flag, "resolved for good on a statically known first pass");
+        std::mem::forget(decls); std::mem::forget(defs);
+    }
+}
+step! { int;
+    #[kani::unwind(2)]
+    fn c02_b_instr_two_matches() {
+        // two resolving matches: the unique smallest is stored; equal sizes are an error on the final pass
+        let (v0, v1): (u8, u8) = (kani::any(), kani::any());
+        let (s0, s1): (usize, usize) = (kani::any(), kani::any());
+        kani::assume(s0 >= 8 && s0 <= 12 && s1 >= 8 && s1 <= 12);
+        let last: bool = kani::any();
+        let prev: u8 = kani::any();
+        let (decls, mut defs) = instr_defs(2, prev as i64, 8, false);
+        pre_int(v0 as i64, Some(s0));
+        pre2_int(v1 as i64, Some(s1));
+        let o = instr_step(&decls, &mut defs, false, last, true);
+        assert!(o.ok);
+        if s0 == s1 && last {
+            assert!(o.errs > 0 && !o.resolved, "two equally small encodings accepted on the final pass");
+        } else {
+            let (wv, ws) = if s1 < s0 { (v1, s1) } else { (v0, s0) };
+            assert!(o.stored == wv as i64 && o.stored_size == Some(ws), "stored encoding is not the smallest candidate");
+            assert!(o.resolved == (prev == wv), "Resolved differs from 'encoding value unchanged'");
+        }
+        kani::cover!(s1 < s0 && o.resolved, "second, smaller rule selected");
+        kani::cover!(s0 == s1 && last, "ambiguity on the final pass");
+        kani::cover!(s0 == s1 && !last && o.resolved, "ambiguity tolerated while guessing");
+        std::mem::forget(decls); std::mem::forget(defs);
+    }
+}
+step! { failed;
+    #[kani::unwind(2)]
+    fn c02_b_instr_failed_constraint() {
+        // the only match fails its constraint: never resolved; an error on the final pass
+        let last: bool = kani::any();
+        let (decls, mut defs) = instr_defs(1, 5, 8, false);
+        pre_failed();
+        let o = instr_step(&decls, &mut defs, false, last, true);
+        assert!(o.ok && !o.resolved, "instruction whose only rule fails its constraint counted as resolved");
+        assert!(o.stored == 5, "failed match overwrote the stored encoding");
+        if last { assert!(o.errs > 0, "final pass without a diagnostic"); }
+        kani::cover!(last);
+        kani::cover!(!last && o.errs == 0, "silent while guessing");
+        std::mem::forget(decls); std::mem::forget(defs);
+    }
+}
